@@ -288,6 +288,7 @@ def run(ctx):
     ctx.guarded("R-C03-cache", cache, ctx, prog)
     ctx.guarded("R-C03-exits", exits, ctx, prog)
     ctx.guarded("R-C03-config", config_args, ctx, prog)
+    ctx.guarded("R-C03-panic", duplicates_key, ctx, prog)
 
 
 # ------------------------------------------------------------------------------------------
@@ -598,3 +599,29 @@ def config_args(ctx, prog):
             else:
                 ctx.ok(rule, body.id, "CommitLog::new(%s) is read from config field(s) %s" % (pname, sorted(names)), site=body.loc(t.get("sp")))
     ctx.floor(rule, "CommitLog::new call sites outside segments::", n, 1)
+
+
+def duplicates_key(ctx, prog):
+    """Precondition of two audit entries (`debug_assert!(check_tracker_duplicates(id).is_none())` in prepare_filter and
+    handle_new_connection): the audit argues from `connection.subscriptions.insert(filter) == true`, i.e. uniqueness
+    of the subscription PATH. That carries over to the assertion only if check_tracker_duplicates tests uniqueness
+    in the same key space. filter_idx is not: `t` and `$share/g/t` are two subscriptions on one log."""
+    rule = "R-C03-panic"
+    bodies = [prog.one(r"^router::scheduler::Scheduler::check_tracker_duplicates$")] + prog.find(r"^router::scheduler::Scheduler::check_tracker_duplicates::\{closure#\d+\}$")
+    keys = []
+    for b in bodies:
+        for bb, t in b.calls():
+            if re.search(r"HashSet::<T, S(, A)?>::insert$", callee_path(t)) and not b.is_cleanup(bb):
+                for s in flatten_src(provenance(b, t["args"][1], through_calls=[r"Clone>::clone$", r"String::as_str$", r"Deref>::deref$"])):
+                    if getattr(s, "fields", None):
+                        keys.append((s.fields[-1], b, t))
+    if not keys:
+        raise AnchorMissing("check_tracker_duplicates: the uniqueness key (HashSet::insert of a DataRequest field) was not found")
+    for k, b, t in keys:
+        if k == "filter":
+            ctx.ok(rule, b.id, "duplicates are judged by DataRequest.filter, the key of connection.subscriptions (precondition of the audit entries on the debug assertion)", site=b.loc(t.get("sp")))
+        else:
+            ctx.violation(rule, b.id, "assertion key is not the subscription key: %s" % k,
+                          "check_tracker_duplicates judges duplicates by DataRequest.%s while the guard the audit relies on (connection.subscriptions.insert) is keyed by the subscription path: `t` and `$share/g/t` are two subscriptions with ONE %s, "
+                          "so a client that sends both in one read fails `debug_assert!(check_tracker_duplicates(id).is_none())` in prepare_filter and — in a build with debug assertions — ends the router thread" % (k, k),
+                          site=b.loc(t.get("sp")))
